@@ -6,6 +6,7 @@ import (
 	"bufio"
 	"fmt"
 	"os"
+	"strconv"
 	"strings"
 )
 
@@ -57,6 +58,17 @@ func handle(line string) string {
 			return "BADREQ"
 		}
 		return lexRun(string(b), f[1] == "n")
+	case "POS":
+		if len(f) != 4 {
+			return "BADREQ"
+		}
+		b, ok := unhex(f[1])
+		pos, e1 := strconv.Atoi(f[2])
+		end, e2 := strconv.Atoi(f[3])
+		if !ok || e1 != nil || e2 != nil {
+			return "BADREQ"
+		}
+		return posRun(string(b), pos, end)
 	}
 	return "BADREQ"
 }
